@@ -117,3 +117,5 @@ func (p *Prog) ssaFunc(key string) *ssa.Function {
 func (p *Prog) describe() string {
 	return fmt.Sprintf("%d packages", len(p.all))
 }
+
+func typesNewPointer(t types.Type) types.Type { return types.NewPointer(t) }
